@@ -488,7 +488,7 @@ def subterms(t):
                                         yield from subterms(z)
 
 
-_HEADS = {"acc", "item", "mut", "op", "vec", "arg", "const", "fnref", "field", "variant", "index", "cindex", "subslice", "proj", "loopvar", "updated",
+_HEADS = {"acc", "item", "item2", "st", "mut", "op", "vec", "arg", "const", "fnref", "field", "variant", "index", "cindex", "subslice", "proj", "loopvar", "updated",
           "uninit", "phi", "cast", "bin", "un", "len", "discr", "agg", "closure", "repeat", "unknown", "callind",
           "iter", "try", "residual", "ok_or", "map_err", "call", "some", "ok", "errval"}
 
